@@ -192,7 +192,7 @@ def mutate_rdtext(rng, t):
         toks.insert(i, rng.choice(NUMS))
     elif r < 0.9 and toks[i]:
         j = rng.randrange(len(toks[i]))
-        toks[i] = toks[i][:j] + rng.choice(["\\200", "\\034", "\\\\", "0", "9", "z", "\\", '"', "é"]) + toks[i][j + (rng.random() < 0.5):]
+        toks[i] = toks[i][:j] + rng.choice(["\\200", "\\034", "\\\\", "0", "9", "z", "\\", '"', "é", "\\ ", "\\032", "\\009", "\\ ", "+", "_", "0x", "-"]) + toks[i][j + (rng.random() < 0.5):]
     else:
         toks[i] = toks[i].upper() if rng.random() < 0.5 else toks[i] + toks[i]
     return " ".join(toks)
@@ -295,6 +295,16 @@ def record_cases(ctx):
                 pass
         for t in texts:
             yield "rd-text", [101, rdclass, rdtype, t.encode("utf-8", "surrogatepass"), 0, 0]
+        # systematic probe of the lenient number syntaxes (int()/float() accept blanks, signs, "_"): an escaped
+        # blank / a sign / an underscore at the start, inside and at the end of every token of the first text(s)
+        for t in texts[: (1 if ctx.quick else 3)]:
+            toks = t.split(" ")
+            for i, tk in enumerate(toks):
+                if not tk or tk.startswith('"'):
+                    continue
+                for v in ("\\ " + tk[1:], "\\ " + tk, tk[:-1] + "\\ ", "+" + tk[1:], tk[:1] + "_" + tk[2:]):
+                    if v != tk:
+                        yield "rd-text-lenient", [101, rdclass, rdtype, " ".join(toks[:i] + [v] + toks[i + 1:]).encode("utf-8", "surrogatepass"), 0, 0]
         for _ in range(ntext if texts else 0):
             t = mutate_rdtext(rng, rng.choice(texts))
             yield "rd-text-mut", [101, rdclass, rdtype, t.encode("utf-8", "surrogatepass"), rng.randrange(2), rng.randrange(2)]
